@@ -86,10 +86,31 @@ class StepRun:
             elif e.kind == "store":
                 keys = e.data[1]
                 if len(keys) == 1 and keys[0].op == "const" and keys[0].args[0] == key:
-                    ws = WeightStore(e, e.data[2], e.data[4])
-                    ws.in_scan = depth > 0
-                    classify(ws)
-                    out.append(ws)
+                    # one assignment may combine an update with the clips that follow it,
+                    #   w = where(f*w > 100, 0, f*w):  it is the sequence  w = f*w ; w = where(w > 100, 0, w)
+                    chain = []
+                    cur = strip_wrappers(e.data[2])
+                    old = e.data[4]
+                    while True:
+                        g = zero_guard(cur)
+                        if g is None or not (strip_wrappers(g[1]) is strip_wrappers(g[3])) or \
+                                strip_wrappers(g[3]) is strip_wrappers(old):
+                            break
+                        chain.append(cur)
+                        cur = strip_wrappers(g[3])
+                    if chain:
+                        seq = [(cur, old)]
+                        inner = cur
+                        for outer in reversed(chain):
+                            seq.append((outer, inner))
+                            inner = outer
+                    else:
+                        seq = [(e.data[2], old)]
+                    for val, old_ in seq:
+                        ws = WeightStore(e, val, old_)
+                        ws.in_scan = depth > 0
+                        classify(ws)
+                        out.append(ws)
         return out
 
 
